@@ -137,6 +137,29 @@ def run(ctx, prog):
                                 raise AnalysisBroken('%s: non-constant case label' % key0)
                     odd = []
 
+                    def scan_tables(t):
+                        # the direction used (through a linear form) as an index into a constant table: every index of the
+                        # table is a case of its own, and the two positions just outside it are the out-of-range cases
+                        for st in terms.subterms(t):
+                            if st[0] == 'elem' and st[1][0] in ('arr', 'aptr') and 'i' in terms.syms(st[2]):
+                                la = linear_in(st[2], 'i')
+                                n_ = len(st[1][1]) if st[1][0] == 'arr' else len(st[1][1][1])
+                                if la is None or la[0] == 0:
+                                    odd.append('table index ' + terms.fmt(st[2])[:40])
+                                    continue
+                                for pos in range(-1, n_ + 1):
+                                    q_ = (Fraction(pos) - la[1]) / la[0]
+                                    if q_.denominator == 1:
+                                        labels.add(int(q_))
+
+                    def strip_tables(c):
+                        # a condition that depends on the direction only through such a table lookup is decided per index
+                        if isinstance(c, tuple) and c and c[0] == 'elem' and c[1][0] in ('arr', 'aptr'):
+                            return ('sym', '@table')
+                        if isinstance(c, tuple):
+                            return tuple(strip_tables(x) if isinstance(x, tuple) else x for x in c)
+                        return c
+
                     def scan(c):
                         if not isinstance(c, tuple) or not c:
                             return
@@ -163,11 +186,13 @@ def run(ctx, prog):
                                         scan(y_)
                     for o_ in outs0:
                         for c_ in o_.conds:
-                            scan(c_)
+                            scan_tables(c_)
+                            scan(strip_tables(c_))
                         if o_.ret is not None:
+                            scan_tables(o_.ret)
                             for st in terms.subterms(o_.ret):
                                 if st[0] == 'ite':
-                                    scan(st[1])
+                                    scan(strip_tables(st[1]))
                     if odd:
                         ctx.ob('C07.G2', key0 + '|dispatch', None, f.where, 'the direction is tested other than by comparison with integer constants (%s): the finite set of representatives is not justified' % odd[:2])
                         continue
